@@ -126,6 +126,7 @@ type SysSpec struct {
 	DefaultTTL     time.Duration      `json:"default_ttl,omitempty"`
 	MaxTTL         time.Duration      `json:"max_ttl,omitempty"`
 	Secrets        []SecretSpec       `json:"secrets,omitempty"`
+	SecretFracMS   int                `json:"secret_frac_ms,omitempty"` // sub-second part of every secret validity bound
 	Egress         *EgressSpec        `json:"egress,omitempty"`
 	DefaultRetry   *RetrySpec         `json:"default_retry,omitempty"`
 	DefaultTimeout time.Duration      `json:"default_timeout,omitempty"`
@@ -154,6 +155,12 @@ func onoff(b bool) string {
 
 func ts(rel int64) string {
 	return Epoch.Add(time.Duration(rel) * time.Second).UTC().Format(time.RFC3339)
+}
+
+// secAt: the instant a secret validity bound stands for - whole seconds relative to Epoch plus the
+// configuration's sub-second part (the configuration's timestamps may carry fractions of a second).
+func (s *SysSpec) secAt(rel int64) time.Time {
+	return Epoch.Add(time.Duration(rel)*time.Second + time.Duration(s.SecretFracMS)*time.Millisecond)
 }
 
 func (r RetrySpec) render() string {
@@ -225,9 +232,9 @@ func (s *SysSpec) Render() string {
 		for _, sc := range s.Secrets {
 			w("  secret %s {", q(sc.ID))
 			w("    value %s", q("raw:"+sc.Value))
-			w("    valid_from %s", q(ts(sc.ValidFrom)))
+			w("    valid_from %s", q(s.secAt(sc.ValidFrom).UTC().Format(time.RFC3339Nano)))
 			if sc.ValidUntil != nil {
-				w("    valid_until %s", q(ts(*sc.ValidUntil)))
+				w("    valid_until %s", q(s.secAt(*sc.ValidUntil).UTC().Format(time.RFC3339Nano)))
 			}
 			w("  }")
 		}
